@@ -366,6 +366,39 @@ def _native_images(tier="quick", seed=0):
         import shutil
 
         shutil.rmtree(d, ignore_errors=True)
+    # the image arrives through a stream in whatever position the caller left it (after sniffing the signature, after PIL read it,
+    # at the end), through a path, through a non-rewound BufferedReader: the stored bytes are the whole file
+    import os
+    import tempfile
+
+    bad = None
+    blob = make("PNG", (5, 3), (96, 96), (9, 8, 7))
+    d_ = tempfile.mkdtemp(prefix="c15_")
+    try:
+        pth = os.path.join(d_, "pic.png")
+        open(pth, "wb").write(blob)
+        for label, mk in (("fresh stream", lambda: io.BytesIO(blob)), ("stream after read(8)", lambda: (lambda s_: (s_.read(8), s_)[1])(io.BytesIO(blob))),
+                          ("stream at its end", lambda: (lambda s_: (s_.read(), s_)[1])(io.BytesIO(blob))),
+                          ("stream PIL has opened", lambda: (lambda s_: (PIL.open(s_).load(), s_)[1])(io.BytesIO(blob))),
+                          ("stream after seek(3)", lambda: (lambda s_: (s_.seek(3), s_)[1])(io.BytesIO(blob))),
+                          ("file object after read(20)", lambda: (lambda f_: (f_.read(20), f_)[1])(open(pth, "rb"))), ("path", lambda: pth)):
+            evals += 1
+            prs_ = Presentation()
+            src = mk()
+            try:
+                pic = prs_.slides.add_slide(prs_.slide_layouts[6]).shapes.add_picture(src, Emu(0), Emu(0))
+                if pic.image.blob != blob:
+                    bad = bad or "add_picture(%s): stored %d bytes (sha1 %s), the file has %d (sha1 %s)" % (label, len(pic.image.blob), hashlib.sha1(pic.image.blob).hexdigest()[:8], len(blob), hashlib.sha1(blob).hexdigest()[:8])
+            except Exception as e:
+                bad = bad or "add_picture(%s) raised %r" % (label, e)
+            finally:
+                if hasattr(src, "close"):
+                    src.close()
+    finally:
+        import shutil
+
+        shutil.rmtree(d_, ignore_errors=True)
+    rec("C15.native.image_source_in_any_stream_position", bad is None, bad, "image-source")
     return {"contract": "C15.native_images", "prop": "C15", "status": "ok", "obligations": obls, "paths": 0, "assumed": [], "functions": {},
             "notes": [], "solver_s": 0.0, "wall_s": _t.time() - t0,
             "bounded": {"name": "C15.native_images", "bound": "PNG/JPEG/GIF/BMP/TIFF x sizes 1x1,3x7,64x16 x dpi {absent,72,300x150,96.5,0,5000}, two slides, one misleading file name",
